@@ -39,6 +39,18 @@ def build_charon(R):
     return binp
 
 
+def creator_signed_definitions(R):
+    """Creator-signed definitions (operators without address) need the unexported cluster.signCreator:
+    built in-package through `go test -overlay`, /repo untouched."""
+    rc, out, od = vp.go_overlay_test("cluster", {"zz_verif_c12_test.go": os.path.join(vp.HARNESS, "overlay", "cluster", "zz_verif_c12_test.go")},
+                                     run="TestVerifC12CreatorDefs", outdir=os.path.join(vp.WORK, "ov_cluster_c12"))
+    fn = os.path.join(od, "c12_creator_defs.json")
+    if rc != 0 or not os.path.exists(fn):
+        R.broke("correspondence:creator-signed definitions cannot be built or do not verify (cluster overlay helper)", out[-2000:])
+        return None
+    return fn
+
+
 def tv_file(envs, cases):
     used = sorted({c["env_id"] for c in cases})
     defs = "\n".join("Definition env_%d : value := %s." % (i, envs[i]) for i in used)
@@ -135,7 +147,11 @@ def replay_mode(R, binp):
         R.coverage["samples"] = res[:1]
         for r in res:
             for f in (r.get("failures") or [])[:3]:
-                R.violation(rp.get("key", "blackbox"), f, inner)
+                f = re.sub(r"\x1b\[[0-9;]*m", "", f)
+                print("replay create cluster %s: %s" % (json.dumps(r["shape"]), f[-300:]))
+                R.violation(rp.get("key", "blackbox"), f[-300:], inner)
+            if not r.get("failures"):
+                print("replay create cluster %s: all %d checks pass" % (json.dumps(r["shape"]), r["checks"]))
     else:
         return   # other replays (golden hash, baseline, round trip) name a file of the tree: the full run re-checks it
     R.finish()
@@ -157,6 +173,9 @@ def main():
 
     per_version = 20 if R.thorough else 1
     env = {"VERIF_TV_PER_VERSION": per_version, "VERIF_CHARON_BIN": binp or ""}
+    creator_defs = creator_signed_definitions(R)
+    if creator_defs:
+        env["VERIF_C12_CREATOR_DEFS"] = creator_defs
     tests = "TestGenEnvs|TestMutate" + ("|TestBlackbox" if binp else "")
     rc, out, od = vp.go_harness(PKG, run=tests, env_extra=env, timeout=2400)
     if rc != 0:
@@ -174,9 +193,17 @@ def main():
     for r in bb:
         bchecks += r["checks"]
         for f in (r.get("failures") or [])[:2]:
-            cls = re.sub(r"[^a-z]+", "-", f.lower())[:60]
-            R.violation("blackbox:" + cls, "create cluster %s: %s" % (json.dumps(r["shape"]), f),
-                        {"shape": r["shape"], "failure": f, "how": "./check C12 --replay <this file> re-creates a cluster of this shape with the built binary and re-checks it"})
+            f = re.sub(r"\x1b\[[0-9;]*m", "", f)
+            cls = re.sub(r"[^a-z]+", "-", re.sub(r"/tmp/\S+|0x[0-9a-f]+|\d+", "", f.lower()))[:60]
+            key = "blackbox:" + cls
+            if r["shape"].get("signed"):
+                key = "create-cluster-signed-definition"
+            rep = {"shape": r["shape"], "failure": f[-400:],
+                   "how": "./check C12 --replay <this file> re-creates a cluster of this shape with the built binary and re-checks it"}
+            if r.get("input_definition"):
+                rep["definition_file"] = r["input_definition"]
+                rep["command"] = "charon create cluster --insecure-keys --cluster-dir=<dir> --definition-file=<definition_file>"
+            R.violation(key, "create cluster %s: %s" % (json.dumps({k: v for k, v in r["shape"].items() if k != "definition"}), f[-300:]), rep)
 
     # (3) mutations, decode/encode stability
     mu = json.load(open(os.path.join(od, "c12_mutate.json")))
@@ -203,12 +230,13 @@ def main():
     R.coverage["distinct_nontrivial"] = ntv - tvbad + triples + len(bb)
     R.coverage["rule"] = ("translation validation: (hash program, environment) pairs whose Coq-evaluated SHA-256 root equals the Go hash, golden files of all 12 versions + fresh signed locks + random edge-case shapes (field lengths 0/31/32/33/64/65/256, 0-9 deposit amounts, 0-7 operators, over-long fields that must fail) — each counts once; "
                           "mutation campaign: every JSON node of golden/fresh/create-cluster files x representative alterations (flip first/middle/last byte, append/prepend/drop a byte, empty, NUL, case, +-1, zero, negate, delete, array drop/dup/swap/empty); non-trivial = distinct (version, leaf pattern) pairs with at least one value-changing alteration judged; "
-                          "black box: create-cluster shapes (nodes x threshold x validators x network x amounts x compounding x per-validator addresses), each with lock verification, key-share/public-share match, deposit and registration checks and combine of threshold subsets")
+                          "black box: create-cluster shapes from flags and from definition files of every version (nodes x threshold x validators x network x deposit-amount lists in every order with repeats x compounding x per-validator addresses x unsigned / creator-signed definition; operator-signed definitions must be REFUSED without writing a lock), each with input-definition == lock-definition, lock verification, key-share/public-share match, deposit and registration checks and combine of threshold subsets")
     R.coverage["input_distribution"] = {
         "translation_validation": {"cases": ntv, "mismatches": tvbad, "per_program": progs},
         "mutation": {"files": mu["files"], "mutants": mu["mutants"], "rejected_by": mu["classes"], "per_alteration": mu["by_alt"],
                      "round_trips": mu["round_trips"]},
-        "blackbox": [{"shape": r["shape"], "version": r["version"], "subsets_combined": r["subsets_combined"], "checks": r["checks"]} for r in bb],
+        "blackbox": [{"shape": {k: v for k, v in r["shape"].items() if k != "definition"}, "version": r["version"], "refused_as_required": bool(r.get("refused")),
+                      "subsets_combined": r["subsets_combined"], "checks": r["checks"]} for r in bb],
     }
     R.coverage["not_covered_by_any_hash_or_signature"] = mu["allowed"]
     R.coverage["hash_only_gaps_closed_by_other_checks"] = mu["hash_only_gaps_closed_by_other_checks"]
